@@ -390,4 +390,34 @@ def c13(ctx):
     return ctx.finish(rule=RULE_UPDATE)
 
 
-CHECKS = {'C03': c03, 'C10': c10, 'C12': c12, 'C13': c13, 'C01': c01, 'C02': c02, 'C04': c04, 'C07': c07, 'C08': c08, 'C09': c09}
+def c11(ctx):
+    from . import drv_incr as d
+    thorough = ctx.tier == 'thorough'
+    ctx.mc('MC_Incremental', 'MC_Incremental.cfg' if thorough else 'MC_Incremental_quick.cfg', timeout=3000)
+    ctx.mc('MC_Incremental', 'MC_Incremental_F2.cfg', expect_violation='IncEqualsFull', coverage=False)
+    n = 12000 if thorough else 700
+    out = core.pool_map(d.one_history, [(ctx.seed, i, {}) for i in range(n)])
+    recs = [r for o in out for r in o]
+    metas = [r.pop('meta') for r in recs]
+    ctx.judge('TraceIncremental', 'TraceIncremental.cfg', recs, metas,
+              {'driver': 'one_history', 'module': 'TraceIncremental'},
+              sig=lambda r: hash((r['tz'], json_key([[f[k] for k in ('modified', 'sizediff', 'added', 'deleted', 'same')]
+                                                      + [f['dmt'] > 0, f['dmt'] == 0] for f in r['files']]))))
+    tzs = {}
+    for m in metas:
+        tzs[m.get('tz', '?')] = tzs.get(m.get('tz', '?'), 0) + 1
+    ctx.extra['rounds_by_tz'] = tzs
+    ctx.extra['rounds_with_mid_update_modification'] = sum(1 for m in metas if m.get('mid'))
+    ctx.sample({'direction': 'code->spec', 'meta': metas[1], 'files': recs[1]['files'][:3]})
+    ctx.assumptions += ['virtual clock: gemato.cli.datetime replaced by a shim whose utcnow() is scripted',
+                        'TZ set with POSIX strings (no tzdata): UTC, XXX-5/XXX-11 (east), XXX5/XXX9 (west)',
+                        'mtime == TIMESTAMP exactly is a lenient zone']
+    return ctx.finish(rule='Incremental.tla (two replicas, clock in half seconds, edits with mtimes older/equal/newer '
+                      'than TIMESTAMP, modification interleaved with per-file hashing, three zone offsets) checked '
+                      'by TLC; real `gemato update --incremental` vs full `gemato update` on two copies over 1-3 '
+                      'rounds of change/size-change/touch/add/delete with mtimes set relative to the previous '
+                      'TIMESTAMP (incl. sub-second), a modification injected after the k-th per-file step, five TZ '
+                      'settings; judged per file by TraceIncremental.tla.')
+
+
+CHECKS = {'C11': c11, 'C03': c03, 'C10': c10, 'C12': c12, 'C13': c13, 'C01': c01, 'C02': c02, 'C04': c04, 'C07': c07, 'C08': c08, 'C09': c09}
